@@ -59,7 +59,8 @@ Section Writer.
     | None => Err EValue
     | Some sz =>
       let sh := if le then sz * 8 - wb_rem b else wb_rem b - bits in
-      if sh <? 0 then Err EValue                                         (* negative shift count *)
+      if (data <? 0) || negb (Z.shiftr data bits =? 0) then Err ERange      (* a value that does not fit the bit field: OverflowError *)
+      else if sh <? 0 then Err EValue                                    (* negative shift count *)
       else
         let buf := Z.lor (wb_buf b) (Z.shiftl data sh) in
         let rem := wb_rem b - bits in
